@@ -107,6 +107,7 @@ type State struct {
 	LogOn bool
 	// Tainted: a feasibility check came back unknown on this path
 	Tainted bool
+	ForkDepth int
 	// ParStack: saved heaps for verifPar
 	nextTid int
 }
@@ -138,7 +139,7 @@ func (st *State) clone() *State {
 	n := &State{
 		Cur: st.Cur, PC: st.PC[:len(st.PC):len(st.PC)], ND: st.ND[:len(st.ND):len(st.ND)],
 		Notes: st.Notes[:len(st.Notes):len(st.Notes)], Access: st.Access[:len(st.Access):len(st.Access)],
-		NFresh: st.NFresh, Steps: st.Steps, LogOn: st.LogOn, Tainted: st.Tainted, nextTid: st.nextTid,
+		NFresh: st.NFresh, Steps: st.Steps, LogOn: st.LogOn, Tainted: st.Tainted, nextTid: st.nextTid, ForkDepth: st.ForkDepth,
 	}
 	n.Heap = make(map[*Obj]Val, len(st.Heap))
 	for k, v := range st.Heap {
